@@ -12,6 +12,22 @@ import JominiModel.Proofs.TextDeSyntax
 /-
 C02 — Text deserialization returns the document's values on both parse paths.
 Only property theorems live here; helper lemmas are in `Proofs/TextDe*.lean`.
+
+THE LEAF CLAUSES of the property (numbers by their decimal meaning, `yes` / `no`, strings decoded with the chosen
+encoding) hold by SHARED DEFINITION with the deserializer models, and rest on C11 / C12 by composition:
+* `valueOfScalar` (Spec/TextDoc.lean) and both path models (`tLeaf`, `sLeaf`) call the same `leafConv`
+  (Model/TextDe.lean), which calls the scalar-conversion model of C11 itself -- `Scalar.toBool`, `Scalar.toI64`,
+  `Scalar.toU64`, `Scalar.toF64` (Model/Scalar.lean) -- followed by serde's range check for the narrower integer
+  types.  What those functions compute is C11's subject: `C11_bool`, `C11_i64` / `C11_i64_out_of_range` /
+  `C11_i64_foreign`, `C11_u64` / `C11_u64_out_of_range` / `C11_u64_foreign`, `C11_f64_shape` / `C11_f64_value` /
+  `C11_f64_correctly_rounded` / `C11_f64_two_ulp` (Props/C11.lean).
+* strings, keys and enum variants go through `TextDe.decode` on both paths and in the spec; the bridge theorems
+  `C12_bridge_textde_w1252 : TextDe.decode .w1252 d = (decodeWindows1252 d).bytes` and `C12_bridge_textde_utf8`
+  (Props/C12.lean) identify it with C12's decoders, whose meaning is `C12_win1252` / `C12_utf8` / `C12_valid`.
+So "the i64 field holds the number the digits denote" = `C02_stream_eq_spec` / `C02_tape_eq_spec` (the field's value
+is `valueOf`, i.e. `leafConv .i64` of the scalar's bytes) composed with `C11_i64`; likewise for the other leaves.
+The theorems below are about everything AROUND the leaves: which scalar reaches which conversion, in which order,
+with which operator, and what happens on a mismatch.
 -/
 namespace Jomini.Props.C02
 open Jomini Jomini.TextDe Jomini.TextDoc
@@ -329,7 +345,12 @@ example :
 
 /-- Error agreement for EVERY root target type (not only fitting ones): for every well-formed
 save-style document, the tape path and the stream path return the same result -- `ok` with the same
-value, or `error` with the same error class -- and that result is the spec's `valueOf`; unless the
+value, or `error` with the same error class (`DErr`, the classes of tyseed.rs `err_class`: `missing` and `duplicate`
+with the field name, `type` = serde's invalid type / invalid value, and the COARSE class `other`, which lumps
+everything else together: unknown enum variant, invalid length of a fixed-length target, an unterminated sequence,
+a root that is not a map, lexer / end-of-input errors of the reader.  So "same error class" identifies the
+field and the kind for the first three, and only "some other refusal" for the last; the error MESSAGES of the two
+paths are not compared) -- and that result is the spec's `valueOf`; unless the
 (type, document) pair contains one of the combinations of `Bad` (`any` on an object or a header
 value; an enum on a container; a sequence on a non-array; a map / struct on a non-empty array or a
 header value; `Property` outside field position).  `Bad` is necessary for a disagreement, and every
